@@ -1,3 +1,212 @@
-import Econf.Layered
+import Econf.Lemmas.LayeredLemmas
+import Econf.KeyFileOps
+import Econf.Writer
+
+/-!
+  C18 — threads working on their own configuration objects do not disturb each other.
+
+  The model makes the process-wide state explicit (`Global`): the settings (security flags, drop-in
+  directory list — changed only by the setters documented as global) and the last-error-location
+  record (written by every read).  A thread's call is a step on `Global` and on the thread's private
+  part.  Two frame conditions are proved for the model's calls (`C18_frame_*`):
+  (F1) a call leaves the settings as they are, (F2) its answer and its effect on the private part do
+  not depend on the error-location record.  From them follows, for EVERY interleaving of any number
+  of threads with call sequences of any length, that each thread obtains exactly the answers of
+  running its calls alone (`C18_noninterference`).
+  What the model cannot exhibit: a data race inside one call (steps are atomic here) and memory that
+  is shared without being in `Global`.  The second is covered by `Struct.C18_globals` over the
+  extracted static objects, the first by ThreadSanitizer on the executed schedules.
+-/
+
+set_option linter.unusedSimpArgs false
+
 namespace Econf
+
+/-- the settings part of the process-wide state -/
+def settingsOf (g : Global) : (Bool × Nat × Bool × Nat × Bool) × List Str := (secOf g, dataOf g)
+
+/-- a system of calls on private state -/
+structure CallSys where
+  Priv : Type
+  Call : Type
+  Out : Type
+  step : Global → Priv → Call → Global × Priv × Out
+  /-- (F1) calls do not change the settings -/
+  keeps : ∀ g p c, settingsOf (step g p c).1 = settingsOf g
+  /-- (F2) answers and private effects depend on the settings only -/
+  indep : ∀ g1 g2 p c, settingsOf g1 = settingsOf g2 → (step g1 p c).2 = (step g2 p c).2
+
+/-- one thread alone -/
+def CallSys.solo (S : CallSys) : Global → S.Priv → List S.Call → List S.Out
+  | _, _, [] => []
+  | g, p, c :: cs => (S.step g p c).2.2 :: S.solo (S.step g p c).1 (S.step g p c).2.1 cs
+
+/-- an interleaved run: events are (thread, call); returns the answers tagged with their thread -/
+def CallSys.run (S : CallSys) : Global → (Nat → S.Priv) → List (Nat × S.Call) → List (Nat × S.Out)
+  | _, _, [] => []
+  | g, ps, (i, c) :: evs =>
+    let r := S.step g (ps i) c
+    (i, r.2.2) :: S.run r.1 (fun j => if j = i then r.2.1 else ps j) evs
+
+theorem CallSys.solo_indep (S : CallSys) (g1 g2 : Global) (p : S.Priv) (cs : List S.Call) (h : settingsOf g1 = settingsOf g2) :
+    S.solo g1 p cs = S.solo g2 p cs := by
+  induction cs generalizing g1 g2 p with
+  | nil => rfl
+  | cons c cs ih =>
+    simp only [CallSys.solo]
+    have h2 := S.indep g1 g2 p c h
+    rw [h2]
+    congr 1
+    apply ih
+    rw [S.keeps, S.keeps, h]
+
+/-- every interleaving: the answers thread `i` obtains are those of its own calls run alone -/
+theorem C18_noninterference (S : CallSys) (g : Global) (ps : Nat → S.Priv) (evs : List (Nat × S.Call)) (i : Nat) :
+    ((S.run g ps evs).filter (fun e => e.1 == i)).map (·.2) =
+      S.solo g (ps i) ((evs.filter (fun e => e.1 == i)).map (·.2)) := by
+  induction evs generalizing g ps with
+  | nil => rfl
+  | cons ev evs ih =>
+    obtain ⟨j, c⟩ := ev
+    simp only [CallSys.run]
+    by_cases hj : j = i
+    · subst hj
+      simp only [List.filter_cons, beq_self_eq_true, if_true, List.map_cons, CallSys.solo]
+      rw [ih]
+      simp
+    · have hb : (j == i) = false := by simpa using hj
+      simp only [List.filter_cons, hb, Bool.false_eq_true, if_false]
+      rw [ih]
+      have hi : (if i = j then (S.step g (ps j) c).2.1 else ps i) = ps i := by
+        rw [if_neg (fun h : i = j => hj h.symm)]
+      rw [hi]
+      exact S.solo_indep _ _ _ _ (S.keeps g (ps j) c)
+
+/-! ### the model's calls satisfy the frame conditions -/
+
+theorem askCallback_settings (cb : Callback) (s : RdState) (p : Str) : settingsOf (askCallback cb s p).1.g = settingsOf s.g := by
+  rw [askCallback_g]
+
+theorem readOpened_settings (ctx : RdCtx) (s : RdState) (j p : Bool) (a d c : Str) :
+    settingsOf (readOpened ctx s j p a d c).1.g = settingsOf s.g := by
+  unfold settingsOf
+  rw [readOpened_sec, readOpened_data ctx s s rfl]
+  -- dataOf of the result state equals dataOf of the start state
+  congr 1
+  unfold readOpened dataOf
+  cases ctx.fs.read a with
+  | none => rfl
+  | some content =>
+    simp only
+    cases parseBytes { delim := d, comment := c, python := p, join := j } content with
+    | error en => rfl
+    | ok st => simp only; split <;> rfl
+
+/-- (F1) for a single-file read: security flags and drop-in list are untouched -/
+theorem C18_frame_keeps_file (ctx : RdCtx) (s : RdState) (j p : Bool) (path d c : Str) :
+    settingsOf (readFileCB ctx s j p path d c).1.g = settingsOf s.g := by
+  unfold readFileCB
+  cases ctx.fs.lstat path with
+  | none => rfl
+  | some node =>
+    simp only
+    cases gate s.g node with
+    | some e => rfl
+    | none =>
+      simp only
+      have hg := askCallback_g ctx.cb s path
+      generalize askCallback ctx.cb s path = x at hg
+      obtain ⟨t, a⟩ := x
+      simp only at hg ⊢
+      cases a with
+      | false => simp only [Bool.not_false, if_true]; rw [hg]
+      | true =>
+        simp only [Bool.not_true, Bool.false_eq_true, if_false]
+        cases absPath ctx.fs path with
+        | none => simp only; rw [hg]
+        | some ab => simp only; rw [readOpened_settings]; simp only; rw [hg]
+
+/-- (F2) for a single-file read: the result depends on the settings only, not on the error-location record -/
+theorem C18_frame_indep_file (fs : FS) (cb : Callback) (s1 s2 : RdState) (j p : Bool) (path d c : Str)
+    (h : settingsOf s1.g = settingsOf s2.g) (hc : s1.calls = s2.calls) :
+    (readFileCB { fs := fs, cb := cb } s1 j p path d c).2 = (readFileCB { fs := fs, cb := cb } s2 j p path d c).2 := by
+  unfold settingsOf at h
+  simp only [Prod.mk.injEq] at h
+  exact (readFileCB_sim fs cb cb s1 s2 j p path d c h.2 (fun node _ => gate_secOf _ _ h.1 node) (by rw [hc])).1
+
+/-- (F2) for a whole history read without callback -/
+theorem C18_frame_indep_history (fs : FS) (s1 s2 : RdState) (dirs : List Str) (name suffix : Option Str) (delim : Option Str)
+    (comment : Str) (j p : Bool) (confDirs : List Str) (h : settingsOf s1.g = settingsOf s2.g) :
+    (readHistory { fs := fs, cb := none } s1 dirs name suffix delim comment j p confDirs).2 =
+      (readHistory { fs := fs, cb := none } s2 dirs name suffix delim comment j p confDirs).2 := by
+  unfold settingsOf at h
+  simp only [Prod.mk.injEq] at h
+  exact (readHistory_sim fs none none (fun _ _ _ => rfl) s1 s2 h.2 dirs name suffix delim comment j p confDirs
+    (fun _ node _ => gate_secOf _ _ h.1 node)).1
+
+/-- a concrete call system: threads reading single files of their private tree and querying / changing
+    their private object -/
+inductive PCall where
+  | readFile (path delim comment : Str)
+  | set (g : Option Str) (k : Str) (v : Str)
+  | get (g : Option Str) (k : Str)
+  | write
+
+structure PState' where
+  fs : FS
+  obj : Option KeyFile
+
+inductive POut where
+  | code (e : Err)
+  | text (r : Except Err (Option Str))
+  | bytes (b : Option Str)
+
+def pstep (g : Global) (p : PState') : PCall → Global × PState' × POut
+  | .readFile path d c =>
+    let r := readFileCB { fs := p.fs, cb := none } { g := g } false false path d c
+    (r.1.g, { p with obj := match r.2 with
+      | .ok kf => some kf
+      | .error _ => none }, .code (match r.2 with
+      | .ok _ => .success
+      | .error e => e))
+  | .set grp k v =>
+    (match p.obj with
+     | none => (g, p, .code .fileListIsNull)
+     | some kf => let r := setValue kf grp (some k) (.ok v); (g, { p with obj := some r.1 }, .code r.2))
+  | .get grp k =>
+    (match p.obj with
+     | none => (g, p, .text (.error .error))
+     | some kf => (g, p, .text (getString kf grp (some k))))
+  | .write => (g, p, .bytes (p.obj.map writeBytes))
+
+/-- the concrete call system satisfies (F1) and (F2) -/
+def modelSys : CallSys where
+  Priv := PState'
+  Call := PCall
+  Out := POut
+  step := pstep
+  keeps := by
+    intro g p c
+    cases c with
+    | readFile path d c => exact C18_frame_keeps_file _ { g := g } _ _ _ _ _
+    | set grp k v => unfold pstep; cases p.obj <;> rfl
+    | get grp k => unfold pstep; cases p.obj <;> rfl
+    | write => rfl
+  indep := by
+    intro g1 g2 p c h
+    cases c with
+    | readFile path d c =>
+      have := C18_frame_indep_file p.fs none { g := g1 } { g := g2 } false false path d c h rfl
+      simp only [pstep]
+      rw [this]
+    | set grp k v => unfold pstep; cases p.obj <;> rfl
+    | get grp k => unfold pstep; cases p.obj <;> rfl
+    | write => rfl
+
+/-- instance of the theorem: any interleaving of threads reading, changing and writing their own objects -/
+theorem C18_model_noninterference (g : Global) (ps : Nat → PState') (evs : List (Nat × PCall)) (i : Nat) :
+    ((modelSys.run g ps evs).filter (fun e => e.1 == i)).map (·.2) =
+      modelSys.solo g (ps i) ((evs.filter (fun e => e.1 == i)).map (·.2)) :=
+  C18_noninterference modelSys g ps evs i
+
 end Econf
